@@ -57,15 +57,63 @@ func c01Range(f string) int {
 	return 2
 }
 
+// c01Bodies: packet bodies (bytes 4..187) that mean something to other layers of the library - PES starts of
+// every kind of stream_id directly behind the header and behind adaptation fields of several lengths, PSI section
+// starts behind a pointer_field, look-alike packet headers, constant fills - besides random ones: the transport
+// header accessors must not look at any of it.
+func c01Bodies(r *rand.Rand) []packet.Packet {
+	var out []packet.Packet
+	add := func(f func(p *packet.Packet)) {
+		var p packet.Packet
+		r.Read(p[:])
+		f(&p)
+		out = append(out, p)
+	}
+	add(func(p *packet.Packet) {})
+	for _, fill := range []byte{0x00, 0xff, 0x47} {
+		add(func(p *packet.Packet) {
+			for i := 4; i < 188; i++ {
+				p[i] = fill
+			}
+		})
+	}
+	for _, sid := range []byte{0xe0, 0xc0, 0xbc, 0xbd, 0xbe, 0xbf, 0xf0, 0xff, 0x00} {
+		add(func(p *packet.Packet) { copy(p[4:], []byte{0, 0, 1, sid, 0, 0, 0x84, 0x80, 5, 0x21, 0, 1, 0, 1}) })
+		for _, afl := range []int{0, 1, 7, 100, 179} {
+			add(func(p *packet.Packet) {
+				p[4] = byte(afl)
+				if afl > 0 {
+					p[5] = 0x10 * byte(r.Intn(2))
+				}
+				copy(p[5+afl:], []byte{0, 0, 1, sid})
+			})
+		}
+	}
+	add(func(p *packet.Packet) { copy(p[4:], []byte{0, 0, 0xb0, 0x0d, 0, 1, 0xc1, 0, 0, 0, 1, 0xe1, 0}) })
+	add(func(p *packet.Packet) { copy(p[4:], []byte{0, 2, 0xb0, 0x12, 0, 1, 0xc1, 0, 0, 0xe1, 0, 0xf0, 0}) })
+	add(func(p *packet.Packet) { copy(p[4:], []byte{0, 0xfc, 0x30, 0x11, 0, 0, 0, 0, 0, 0, 0, 0xff, 0xf0}) })
+	add(func(p *packet.Packet) { copy(p[4:], []byte{183, 0x10, 0, 0, 0, 0, 0x7e, 0}) })
+	add(func(p *packet.Packet) {
+		for i := 4; i+4 <= 188; i += 4 {
+			copy(p[i:], []byte{0x47, 0x40, 0x00, 0x10})
+		}
+	})
+	return out
+}
+
 func (c01) Gen(tier string, seed int64, emit func([]Ev)) {
 	r := rand.New(rand.NewSource(seed))
 	n := 600
 	if tier == "thorough" {
 		n = 8000
 	}
+	bodies := c01Bodies(r)
 	for i := 0; i < n; i++ {
 		var p packet.Packet
 		r.Read(p[:])
+		if i%4 == 1 {
+			copy(p[4:], bodies[(i/4)%len(bodies)][4:])
+		}
 		if i%3 == 0 {
 			p[0] = 0x47
 		}
@@ -249,16 +297,17 @@ func (c01) Table(rows []Ev, tier string, seed int64, rep *TableReport) {
 			r := rand.New(rand.NewSource(seed*100 + int64(w)))
 			var body packet.Packet
 			r.Read(body[:])
+			bodies := c01Bodies(r)
 			var n int64
 			for b1 := w; b1 < 256; b1 += 16 {
-				// getters: every (b1,b2) x every b3 (b3 sampled 16 in quick)
+				// getters: every (b1,b2) x every b3 (b3 sampled 16 in quick), over bodies that mean something elsewhere
 				for b2 := 0; b2 < 256; b2++ {
 					b3step := 16
 					if thorough {
 						b3step = 1
 					}
 					for b3 := (b1 + b2) % b3step; b3 < 256; b3 += b3step {
-						p := body
+						p := bodies[(b1*7+b2*3+b3/b3step)%len(bodies)]
 						p[0] = byte(r.Intn(256))
 						p[1], p[2], p[3] = byte(b1), byte(b2), byte(b3)
 						g := c01Getters(&p)
